@@ -1,0 +1,22 @@
+//go:build verif
+// +build verif
+
+package capnp
+
+// Read-only views of the stream framing code for the verification harness in /verif
+// (property C14).  Compiled only with the build tag "verif".
+
+// VerifCaps returns cap(d.hdrbuf) and cap(d.buf): which buffers the decoder holds on to.
+func (d *Decoder) VerifCaps() (hdrcap, bufcap int) { return cap(d.hdrbuf), cap(d.buf) }
+
+// VerifStreamHeaderSize re-exports streamHeaderSize.
+func VerifStreamHeaderSize(maxSeg uint32) uint64 { return streamHeaderSize(SegmentID(maxSeg)) }
+
+// VerifSegmentSize re-exports streamHeader.segmentSize.
+func VerifSegmentSize(hdr []byte, i uint32) (uint32, error) {
+	sz, err := streamHeader{hdr}.segmentSize(SegmentID(i))
+	return uint32(sz), err
+}
+
+// VerifTotalSize re-exports streamHeader.totalSize.
+func VerifTotalSize(hdr []byte) (uint64, error) { return streamHeader{hdr}.totalSize() }
